@@ -206,6 +206,17 @@ def compare(ctx, w, a, b_, fails, label, g=None):
             except Exception:  # noqa  (an accessor that raises is judged elsewhere)
                 ctx.count("accessor-raised")
         ctx.count("accessors-read-before-compare")
+        # ... and read-only uses of the containers of that side: look-ups that find nothing (and ones that do), listings
+        hside = a if side is oa else b_
+        for c in [hside] + [w.bundle_at(hside, i) for i in range(len(list(side.bundles)) if side.is_document() else 0)]:
+            cobj = w.conts[c]
+            w.get_record(c, g.choice(["ex:nowhere%d" % g.rng.randint(0, 3), "http://nowhere.example/q"]))
+            named = [r for r in cobj.records if r.identifier is not None]
+            if named:
+                w.get_record(c, g.choice(named).identifier)
+            _ = (list(cobj.get_records()), cobj.get_registered_namespaces(), cobj.get_default_namespace(), cobj.is_document(),
+                 cobj.has_bundles(), list(cobj.namespaces))
+        ctx.count("containers-read-before-compare")
     exp = doc_content(oa) == doc_content(ob)
     e1 = w.eq(a, b_)
     e2 = w.eq(b_, a)
